@@ -14,7 +14,7 @@ EXPLANATION = (
 
 READ_FLOOR = 2930
 WRITE_FLOOR = 2718
-OPC_FLOOR = 19730
+OPC_FLOOR = 22200
 
 
 def pkey(p):
@@ -194,6 +194,9 @@ def run(ctx):
     # the protocol-parameterised login API must hand protocol version K to version K's own codec (rule shared with C14)
     from . import c14
     c14.check_protocol_routing(ctx)
+    # the public login writers hand the transport exactly what write_into_vec produced (rule shared with C02)
+    from . import c02_frame
+    c02_frame.run_login_writers(ctx)
     check_builtin_lossless(ctx, st["g"])
     ctx.rule("lay.read-write-ref", n_read + n_write, floor=READ_FLOOR + WRITE_FLOOR,
              note=f"{n_read} reader and {n_write} writer layouts of {n_containers} containers vs wowm reference ({len(skipped)} non-wire helper structs skipped)")
